@@ -1,0 +1,54 @@
+//go:build verif
+
+package quadtree
+
+import (
+	"strings"
+
+	"github.com/paulmach/orb"
+)
+
+// VerifDump serialises the node tree for the verification harness:
+// "N" for a nil node, "( v c0 c1 c2 c3 )" otherwise, where v is id(value) or "_".
+func (q *Quadtree) VerifDump(id func(orb.Pointer) string) string {
+	var sb strings.Builder
+	var walk func(n *node)
+	walk = func(n *node) {
+		if n == nil {
+			sb.WriteString("N")
+			return
+		}
+		sb.WriteString("( ")
+		if n.Value == nil {
+			sb.WriteString("_")
+		} else {
+			sb.WriteString(id(n.Value))
+		}
+		for i := 0; i < 4; i++ {
+			sb.WriteString(" ")
+			walk(n.Children[i])
+		}
+		sb.WriteString(" )")
+	}
+	walk(q.root)
+	return sb.String()
+}
+
+// VerifContents lists the stored pointers in pre-order.
+func (q *Quadtree) VerifContents() []orb.Pointer {
+	var out []orb.Pointer
+	var walk func(n *node)
+	walk = func(n *node) {
+		if n == nil {
+			return
+		}
+		if n.Value != nil {
+			out = append(out, n.Value)
+		}
+		for i := 0; i < 4; i++ {
+			walk(n.Children[i])
+		}
+	}
+	walk(q.root)
+	return out
+}
